@@ -61,7 +61,7 @@ REQUIRED_COUNTERS = {
               "target_args_unchanged_checked": 50000, "forward_input_checked": 5000, "library_target_vs_reference_checked": 400,
               "outside_start_bad_proposals_checked": 600, "outside_start_inward_proposals_checked": 200,
               "initial_point_rep_checked": 90, "initial_point_rep_noise_dim_checked": 800,
-              "proposal_spelling_checked": 25},
+              "proposal_spelling_checked": 25, "undefined_ratio_never_accepted_checked": 100},
     # thorough floors are ~30 % of a complete run, so that a heavily shared machine (cases cut by the wall-clock budget)
     # still gives a verdict
     "thorough": {"proposal_maps_identified": 10000, "documented_proposal_checked": 4500, "threshold_accept_side": 15000,
@@ -71,7 +71,7 @@ REQUIRED_COUNTERS = {
                  "target_args_unchanged_checked": 250000, "forward_input_checked": 30000, "library_target_vs_reference_checked": 1700,
                  "outside_start_bad_proposals_checked": 2400, "outside_start_inward_proposals_checked": 800,
                  "initial_point_rep_checked": 300, "initial_point_rep_noise_dim_checked": 3000,
-                 "proposal_spelling_checked": 100}}
+                 "proposal_spelling_checked": 100, "undefined_ratio_never_accepted_checked": 400}}
 BUDGET_S = {"quick": 240.0, "thorough": 2400.0}
 
 LEGACY_NAME = {"MH": "MH", "CWMH": "CWMH", "PCN": "pCN", "MALA": "MALA", "ULA": "ULA"}
@@ -110,6 +110,8 @@ def _thr_cases(tier, seed):
             targets = PCN_TARGETS if name == "PCN" else PLAIN_TARGETS
             if name == "PCN" and iface == "legacy":
                 targets = targets + ["tuple_user", "tuple_udprior_zero", "tuple_udprior_nonzero"]
+            if name == "MALA":
+                targets = targets + ["gradbad", "gradbad"]      # finite log-density, NaN / +-inf gradient on a half space
             hists = ["fresh", "default", "warm", "reload"] if iface == "exp" else ["fresh", "default", "adapted"]
             routes = ["step", "sample"] if iface == "exp" else ["single_update", "sample2"]
             ngeom = 0
@@ -137,6 +139,8 @@ def _thr_cases(tier, seed):
                         c["pcov"] = rng.choice(["scalar", "vector", "matrix"])
                 if tgt in ("box", "nanhalf") and name in ("MALA", "ULA"):
                     c["grad_bad"] = rng.choice(["finite", "nan"])
+                if tgt == "gradbad":
+                    c["grad_kind"] = ["nan", "nan_one", "posinf", "neginf", "nan"][(i // len(targets)) % 5]
                 if tgt == "lib_gauss":
                     forms = GAUSS_FORMS[:-1] if name in ("MALA", "ULA") else GAUSS_FORMS   # sqrtprec form: gradient refused (NotImplementedError)
                     c["gform"] = forms[(i // len(targets)) % len(forms)]
@@ -159,7 +163,7 @@ def _chain_cases(tier, seed):
             for i in range(n):
                 tgt = targets[i % len(targets)]
                 if tgt == "post_geom" and name == "MALA":
-                    tgt = "lib_bivgauss"
+                    tgt = "gradbad"
                 d = max(rng.choice([1, 2, 3, 4]), R.MIN_DIM.get(tgt, 1), 2 if name == "CWMH" else 1)
                 if tgt == "post_geom":
                     d = max(d, 2)
@@ -173,6 +177,8 @@ def _chain_cases(tier, seed):
                     c["pcov"] = rng.choice(["scalar", "vector", "matrix"] + (["normal"] if (name == "PCN" and tgt != "post_geom") else []))
                     if tgt == "post_geom":
                         _geom_attrs(c, rng, ngeom); ngeom += 1
+                if tgt == "gradbad":
+                    c["grad_kind"] = rng.choice(["nan", "nan_one", "posinf", "neginf"])
                 if tgt == "lib_gauss":
                     c["gform"] = rng.choice(GAUSS_FORMS[:-1] if name == "MALA" else GAUSS_FORMS)
                 out.append(c)
@@ -307,7 +313,7 @@ def cases(tier, seed):
 
 
 def _cfg(case, **extra):
-    keys = ("kind", "sampler", "iface", "target", "hist", "route", "pmean", "pcov", "grad_bad", "proposal", "mode", "start", "rep", "spelling",
+    keys = ("kind", "sampler", "iface", "target", "hist", "route", "pmean", "pcov", "grad_bad", "proposal", "mode", "start", "rep", "spelling", "grad_kind",
             "geom", "pname", "pgeom", "gform")
     c = {k: case[k] for k in keys if k in case}
     c.update(extra)
@@ -376,6 +382,8 @@ class Env:
         elif tgt in R.TARGETS:
             kw = {"grad_bad": case.get("grad_bad", "finite")} if tgt in ("box", "nanhalf") else {}
             self.ref = R.TARGETS[tgt](rs, d, **kw)
+        elif tgt == "gradbad":
+            self.ref = R.GradBad(rs, d, case.get("grad_kind", "nan"))
         elif tgt == "box_ones_out":
             self.ref = R.Box(rs, d, grad_bad=case.get("grad_bad", "finite"), ones_inside=False)
         elif tgt in ("uni_post", "uni_post_ones_out"):
@@ -1155,9 +1163,12 @@ class Thr:
                 self.judge(o, x, True, 0.0, what + " [ULA]")
             return
         if bad:
-            ctx.count("nan_inf_never_accepted_checked")
             ctx.nontrivial("bad:" + str(ref.has_bad))
-            self.judge(self.trans(x, z, [TINY_U], route), x, False, -np.inf, what + f" [proposal in {ref.has_bad} region, u={TINY_U}]")
+            for u in (TINY_U, 0.5, ONE_U):      # whatever the uniform draw: a NaN / -inf / undefined-ratio move is never accepted
+                ctx.count("nan_inf_never_accepted_checked")
+                if ref.has_bad == "gradnan":
+                    ctx.count("undefined_ratio_never_accepted_checked")
+                self.judge(self.trans(x, z, [u], route), x, False, -np.inf, what + f" [proposal in {ref.has_bad} region, u={u}]")
             return
         idy = self.identify(y, full=False, Bknown=Bx)
         if idy is None:
